@@ -47,8 +47,9 @@ structure Cfg where
   labelBeforePop : Bool
   /-- F4 `add_child` undoes the insertion when the reflexive `child.parent = self` raises -/
   rollbackAdopt : Bool
-  /-- F5 `_ensure_path_is_not_cyclic` refuses `parent is child` -/
-  rejectSelf : Bool
+  /-- F5 `_ensure_path_is_not_cyclic` walks up from the prospective parent looking for the child
+  object itself, instead of comparing lexical-path strings -/
+  identityCheck : Bool
   /-- F6 `_this_child_is_already_at_a_different_label` tests membership in the children
   instead of `child.parent is self` -/
   relabelByMembership : Bool
@@ -102,9 +103,21 @@ def pathF (t : Tree) : Nat → Nat → Option Str
     | none => some ('/' :: t.label c)
     | some p => (pathF t n p).map (fun s => s ++ '/' :: t.label c)
 
-/-- `_ensure_path_is_not_cyclic(parent, child)` -/
+/-- repaired `_ensure_path_is_not_cyclic`: `ancestor = parent; while ancestor is a Lexical:
+if ancestor is child: raise; ancestor = ancestor.parent` (`n` iterations available) -/
+def ancWalk (t : Tree) (c : Nat) : Nat → Nat → Outcome
+  | 0, _ => .recursionError
+  | n + 1, x =>
+    if x = c then .cyclicPathError
+    else
+      match t.parent x with
+      | none => .ok
+      | some q => ancWalk t c n q
+
+/-- `_ensure_path_is_not_cyclic(parent, child)`; pinned: `parent.lexical_path.startswith(
+child.lexical_path + "/")` -/
 def cyclicCheck (cfg : Cfg) (t : Tree) (p c : Nat) : Outcome :=
-  if cfg.rejectSelf = true ∧ p = c then .cyclicPathError
+  if cfg.identityCheck then ancWalk t c cfg.fuel p
   else
     match pathF t cfg.fuel p with
     | none => .recursionError
